@@ -1,5 +1,6 @@
 /-
-Model of zygo/parser.go (as it is after the proposed C13 repairs).
+Model of zygo/parser.go (as it is after the C13 repairs, including fix C13-02: the
+look-ahead after a lone `+`/`-` no longer waits once `EndInput` has been called).
 
 The Go parser is a recursive descent running inside an `iter.Pull` coroutine; when the
 token stream runs dry it yields "more input needed" and is resumed by the next
@@ -47,6 +48,7 @@ inductive Prog (α : Type) where
   | pure (a : α)
   | fail                                             -- a parse error
   | waitPeek (extra : Nat) (k : Token → Prog α)      -- wait until `extra+1` tokens are queued; head token
+  | signPeek (k : Token → Prog α)                    -- `peekAfterSign`: as `waitPeek 0`, but `EndTk` once the finished input is used up
   | peekAt (i : Nat) (k : Token → Prog α)            -- wait until `i+1` tokens are queued; `lexer.tokens[i]`
   | getTok (k : Token → Prog α)                      -- `GetNextToken` below the top level: wait for a token, take it
   | topGet (k : Option Token → Prog α)               -- top level: next token, `none` when the input is used up
@@ -57,6 +59,7 @@ def Prog.bind {α β : Type} : Prog α → (α → Prog β) → Prog β
   | .pure a, f => f a
   | .fail, _ => .fail
   | .waitPeek n k, f => .waitPeek n (fun t => (k t).bind f)
+  | .signPeek k, f => .signPeek (fun t => (k t).bind f)
   | .peekAt n k, f => .peekAt n (fun t => (k t).bind f)
   | .getTok k, f => .getTok (fun t => (k t).bind f)
   | .topGet k, f => .topGet (fun t => (k t).bind f)
@@ -68,6 +71,7 @@ instance : Monad Prog where
   bind := Prog.bind
 
 def waitPeek (extra : Nat) : Prog Token := .waitPeek extra .pure
+def signPeek : Prog Token := .signPeek .pure
 def topGet : Prog (Option Token) := .topGet .pure
 def pushTok (t : Token) : Prog Unit := .pushTok t (.pure ())
 def pushExpr (e : Sexp) : Prog Unit := .pushExpr e (.pure ())
@@ -164,7 +168,7 @@ def parseExprTok : Nat → Token → Prog Sexp
     | .beginBlockComment => parseBlockComment fuel tok.str
     | .symbol =>
       if tok.str == ['-'] || tok.str == ['+'] then do
-        let tok2 ← waitPeek 0
+        let tok2 ← signPeek
         if tok2.typ == .float && (tok2.str == "Inf".toList || tok2.str == "inf".toList) then do
           popTok
           match NumLit.parseFloat (tok.str ++ "Inf".toList) with
@@ -288,6 +292,7 @@ def topLoop : Nat → Prog Unit
 structure PState where
   lex : LexState := {}
   fut : List (List Char) := []     -- pieces that will still be delivered
+  eof : Bool := false              -- the last piece of `fut` is the end of the input (delivered by `EndInput`)
   exprs : List Sexp := []          -- sendMe.Expr
   trace : List Status := []        -- answer of every ParseTokens call that ended at a piece boundary
   deriving Inhabited
@@ -314,20 +319,29 @@ def readRune (l : LexState) : Nat → Option (Char × LexState)
       | some l' => readRune l' fuel
       | none => none
 
+/-- The caller of `ParseTokens` got the answer `st` and delivers the next piece `p` (`fut` is
+what remains after it): `NewInput`, or `EndInput` when the piece is the end of the input —
+`{ l.addNextStream eofPiece with finished := true }` is `l.endInput`. -/
+def PState.deliver (s : PState) (p : List Char) (fut : List (List Char)) (st : Status) : PState :=
+  { s with lex := { s.lex.addNextStream p with finished := s.eof && fut.isEmpty }, fut := fut,
+           trace := s.trace ++ [st] }
+
 inductive PeekOut where
   | tok (t : Token) (s : PState)
   | stop (st : Status) (s : PState)
 
 /-- `ParserPeekNextToken(extra)`: lex until `extra+1` tokens are queued; at the end of the
-delivered input yield `more` and go on with the next piece. `fuel` bounds the loop. -/
-def peekWaitRun (extra : Nat) : Nat → PState → PeekOut
+delivered input yield `more` and go on with the next piece. `fuel` bounds the loop.
+With `orEnd` it is `peekAfterSign`: the same loop, but once `EndInput` has been called the end
+of the delivered input is final and `EndTk` is returned instead of yielding. -/
+def peekWaitRun (orEnd : Bool) (extra : Nat) : Nat → PState → PeekOut
   | 0, s => .stop .err s
   | fuel + 1, s =>
     if s.lex.stream.isNone && s.lex.next.isEmpty then
       -- `if lexer.stream == nil && !PromoteNextStream() { return EndTk }`
       match s.fut with
-      | [] => .stop .more s
-      | p :: fut => peekWaitRun extra fuel { s with lex := s.lex.addNextStream p, fut := fut, trace := s.trace ++ [.more] }
+      | [] => if orEnd && s.lex.finished then .tok Token.endTk s else .stop .more s
+      | p :: fut => peekWaitRun orEnd extra fuel (s.deliver p fut .more)
     else
     match (if extra < s.lex.tokens.length then s.lex.tokens.head? else none) with
     | some t => .tok t s
@@ -335,12 +349,12 @@ def peekWaitRun (extra : Nat) : Nat → PState → PeekOut
       match readRune s.lex (s.lex.next.length + 1) with
       | some (c, l) =>
         (match l.step c with
-         | .ok l' => peekWaitRun extra fuel { s with lex := l' }
+         | .ok l' => peekWaitRun orEnd extra fuel { s with lex := l' }
          | .err _ l' => .stop .err { s with lex := l' })
       | none =>
         match s.fut with
-        | [] => .stop .more s
-        | p :: fut => peekWaitRun extra fuel { s with lex := s.lex.addNextStream p, fut := fut, trace := s.trace ++ [.more] }
+        | [] => if orEnd && s.lex.finished then .tok Token.endTk s else .stop .more s
+        | p :: fut => peekWaitRun orEnd extra fuel (s.deliver p fut .more)
 
 inductive TopOut where
   | tok (t : Token) (s : PState)
@@ -356,7 +370,7 @@ def topGetRun : Nat → PState → TopOut
       let st : Status := if inLiteral s.lex.toLexCore then .more else .done
       match s.fut with
       | [] => .finished st s
-      | p :: fut => topGetRun fuel { s with lex := s.lex.addNextStream p, fut := fut, trace := s.trace ++ [st] }
+      | p :: fut => topGetRun fuel (s.deliver p fut st)
     if s.lex.stream.isNone && s.lex.next.isEmpty then atEnd s else
     match s.lex.tokens with
     | t :: ts => .tok t { s with lex := { s.lex with tokens := ts } }
@@ -372,7 +386,11 @@ def run {α : Type} : Prog α → PState → Fin α × PState
   | .pure a, s => (.ret a, s)
   | .fail, s => (.stop .err, s)
   | .waitPeek n k, s =>
-    (match peekWaitRun n (s.size + 1) s with
+    (match peekWaitRun false n (s.size + 1) s with
+     | .tok t s' => run (k t) s'
+     | .stop st s' => (.stop st, s'))
+  | .signPeek k, s =>
+    (match peekWaitRun true 0 (s.size + 1) s with
      | .tok t s' => run (k t) s'
      | .stop st s' => (.stop st, s'))
   | .topGet k, s =>
@@ -381,14 +399,14 @@ def run {α : Type} : Prog α → PState → Fin α × PState
      | .finished .done s' => run (k none) s'
      | .finished st s' => (.stop st, s'))
   | .peekAt i k, s =>
-    (match peekWaitRun i (s.size + 1) s with
+    (match peekWaitRun false i (s.size + 1) s with
      | .tok _ s' =>
        (match s'.lex.tokens[i]? with
         | some t => run (k t) s'
         | none => (.stop .err, s'))
      | .stop st s' => (.stop st, s'))
   | .getTok k, s =>
-    (match peekWaitRun 0 (s.size + 1) s with
+    (match peekWaitRun false 0 (s.size + 1) s with
      | .tok t s' => run (k t) { s' with lex := { s'.lex with tokens := s'.lex.tokens.tail } }
      | .stop st s' => (.stop st, s'))
   | .pushTok t k, s => run k { s with lex := { s.lex with tokens := t :: s.lex.tokens } }
@@ -399,13 +417,14 @@ dropped, the lexer is reset, the piece becomes the current stream. -/
 def resetAddNewInput (l : LexState) (piece : List Char) : LexState :=
   (l.reset).addNextStream piece
 
-/-- end of input = `Parser.EndInput` = one more piece holding a newline -/
+/-- end of input = `Parser.EndInput` = one more piece holding a newline, delivered with the
+mark that nothing follows (`PState.eof`, `PState.deliver`) -/
 def eofPiece : List Char := ['\n']
 
 def initState (l : LexState) (chunks : List (List Char)) : PState :=
   match chunks with
-  | [] => { lex := resetAddNewInput l [], fut := [eofPiece] }
-  | c :: rest => { lex := resetAddNewInput l c, fut := rest ++ [eofPiece] }
+  | [] => { lex := resetAddNewInput l [], fut := [eofPiece], eof := true }
+  | c :: rest => { lex := resetAddNewInput l c, fut := rest ++ [eofPiece], eof := true }
 
 def fuelFor (chunks : List (List Char)) : Nat := 4 * chunks.flatten.length + 16
 
